@@ -5,6 +5,7 @@ mod engine;
 mod exec;
 mod gen;
 mod sched;
+mod stress;
 mod sched_hooks;
 mod subject;
 mod sup;
@@ -19,6 +20,9 @@ pub fn extra_engines(prop: &str, thorough: bool) -> Vec<sup::EnginePlan> {
     let t = thorough;
     if matches!(prop, "C02" | "C03" | "C04" | "C07" | "C08" | "C09" | "C10" | "C11") {
         v.push(sup::EnginePlan { engine: "sched", workers: 16, cases_per_worker: if t { 12000 } else { 1200 }, timeout_s: if t { 2400 } else { 600 } });
+    }
+    if matches!(prop, "C02" | "C04" | "C16") {
+        v.push(sup::EnginePlan { engine: "stress", workers: 4, cases_per_worker: 1, timeout_s: if t { 1800 } else { 600 } });
     }
     if prop == "C17" {
         v.push(sup::EnginePlan { engine: "cfg", workers: 16, cases_per_worker: if t { 6000 } else { 700 }, timeout_s: if t { 1500 } else { 400 } });
@@ -45,6 +49,12 @@ pub fn rule_for(prop: &str, engine: &str) -> String {
         "cfg" => cfg_engine::RULE.to_string(),
         "deque" => comp_deque::RULE.to_string(),
         "sched" => sched::RULE.to_string(),
+        "stress" => match prop {
+            "C04" => stress::RULE_C04,
+            "C16" => stress::RULE_C16,
+            _ => stress::RULE_C02,
+        }
+        .to_string(),
         _ => String::new(),
     }
 }
@@ -94,6 +104,7 @@ fn main() {
                 "sketch" => comp_sketch::sketch_worker(&wa),
                 "cfg" => cfg_engine::cfg_worker(&wa),
                 "deque" => comp_deque::deque_worker(&wa),
+                "stress" => stress::stress_worker(&wa),
                 "sched" => {
                     let r = sched::sched_worker(&wa);
                     sched_hooks::install();
@@ -160,6 +171,7 @@ fn replay_found(found: &engine::Found, path: &str, quiet: bool) -> i32 {
         "cfg" => report(cfg_engine::replay(found), found, path),
         "deque" => report(comp_deque::replay(found), found, path),
         "sched" => report(sched::replay(found, !quiet), found, path),
+        "stress" => report(stress::replay(found), found, path),
         other => {
             eprintln!("unknown engine {other}");
             2
